@@ -75,7 +75,7 @@ func (w *world) describe(c *vh.Case, o observation) {
 	if o.err != nil {
 		rheld = fmt.Sprint(sign(o.rAfter - o.rBefore))
 	}
-	c.Op(fmt.Sprintf("%s %d %d %s", o.rpc, int(w.basis), b2i(w.unconfirmed), o.f.String()),
+	c.Op(fmt.Sprintf("%s %d %d %s", o.rpc, w.basis.code(), b2i(w.unconfirmed), o.f.String()),
 		fmt.Sprintf("renter=%s rtrace=%s htrace=%s recorded=%d same=%s signed=%s rheld=%s hheld=%d",
 			okErr(o.err), strings.Join(o.rtrace, "."), strings.Join(o.htrace, "."), len(o.recorded), same, signed, rheld, sign(o.hAfter-o.hBefore)))
 }
